@@ -199,14 +199,15 @@ class SimpleContractSetup(Contract):
         with real objects: contiguous window, wacc = 0 (discount factors 1)"""
         rI = ctx['R'].get('__fun__')['I']
         k = z3.Int('menu!k')
-        return [z3.ForAll([k], z3.Implies(z3.And(k >= 0, k < ctx['R'].get('T')), rI(k) == rI(0) + k)),
-                H.real('wacc') == 0, z3.ForAll([k], ctx['df'](k) == 1), ctx['g'].get('T') >= 1]
+        return [z3.ForAll([k], z3.Implies(z3.And(k >= 0, k < ctx['R'].get('T')), rI(k) == rI(0) + k)), ctx['g'].get('T') >= 1], [
+                H.real('wacc') == 0, z3.ForAll([k], ctx['df'](k) == 1)]
 
     def native(self, case, P):
         import numpy as np
         import eaopack as eao
         from pyvc import native as N
         T, n = int(P['g_T']), int(P['r_n'])
+        P = N.realisable_wacc(P)
         tg, synthetic = N.synthetic_grid(T, P['g_dt'])
         rI = [int(x) for x in P['r_I']]
         if rI != list(range(rI[0], rI[0] + n)) if n else False:
